@@ -107,6 +107,44 @@ fn main() { loop { nap(); } }`},
 	{name: "spawn-sleep-years", endless: true, vmOnly: true, check: noOutput, src: `
 fn w(id: int) { time.sleep(500000000.0 + 1.0); println("w woke", id); }
 fn main() { for i in 0..N { spawn w(i); } time.sleep(700000000.0); println("main woke"); }`},
+	{name: "huge-range-left-by-break", endless: true, check: noOutput, src: `
+fn main() {
+    for i in 0..4000000000000 { if i == 5 { break; } }
+    loop { let z = 0; }
+}`},
+	{name: "huge-range-left-by-return", endless: true, check: noOutput, src: `
+fn first_over(n: int) -> int {
+    for i in 0..4000000000000 { if i > n { return i; } }
+    0
+}
+fn main() {
+    let f = first_over(3);
+    loop { let z = f; }
+}`},
+	{name: "imports-then-loop", endless: true, check: noOutput, src: `import { lookup, width } from tables;
+fn main() {
+    let n = lookup(2) + width;
+    loop { n = (n + 1) % 1000; }
+}
+//// module tables
+let table = [10, 20, 30, 40];
+let scale = 3;
+pub let width = 7;
+pub fn lookup(i: int) -> int { table[i] * scale }
+fn main() {}
+`},
+	{name: "imports-chain-then-finish", endless: false, check: nil, src: `import { fa } from ta;
+fn main() { println("v", fa()); }
+//// module ta
+import { fb } from tb;
+let ka = [1, 2, 3];
+pub fn fa() -> int { ka[1] + fb() }
+fn main() {}
+//// module tb
+let kb = new { v: 40 };
+pub fn fb() -> int { kb.v }
+fn main() {}
+`},
 	{name: "string-builtins-edge-arguments", endless: false, check: nil, src: `
 fn main() {
     println("smarthome".split("").len(), "a,b".split(",").len(), "".split(",").len(), "".split("").len());
@@ -268,7 +306,7 @@ type runResult struct {
 func c10Exec(t *testing.T, spec RunSpec, cancelAt int64, deadline time.Duration, arm bool) (*simrt.Result, *runResult, error) {
 	w := c10Workloads[spec.P("w", 0)]
 	backend := spec.P("backend", 0)
-	prog, err := MustCompile(Single(c10Source(w, spec.P("n", 2))))
+	prog, err := MustCompile(c09Program(c10Source(w, spec.P("n", 2))))
 	if err != nil {
 		if w.genProg {
 			return nil, nil, errGenRejected
